@@ -16,7 +16,9 @@ CLAIMS = {
    "and promotion quantiles well-formed. Model tied to /repo by differential execution of the real HyperbandScheduler(type=stopping) "
    "on generated schedules (hb stream); a monitor re-derives the rule with numpy.quantile on the implementation trace.",
    "IEEE rounding of the cutoff is outside the model (free decisions adopt the implementation's answer, counted in evidence). "
-   "reduction_factor rung levels: strict monotonicity is checked by correspondence only.",
+   "Rung levels from grace_period / reduction_factor >= 2 (Python round-half-even of min_t*rf^k, any rational factor) are proved positive, "
+   "strictly increasing and below max_t; reduction factors given as floats enter the model as exact rationals (pow in floating point is "
+   "validated by correspondence).",
    "Lean 4 proof (invariants by induction over report sequences) + model/implementation correspondence", "DESIGN.md §5 C03"),
  "C04": ("proof",
    "Lean theorems over the model of PromotionRungSystem / PASHA / cost-aware / RUSH promotion and the promotion path of the scheduler: "
